@@ -282,5 +282,7 @@ PROPS = {
                  {'component': 'gpsdtx', 'profile': 'gpsdtx', 'quick': 120, 'thorough': 800}],
         'trusted': ['bytes.decode / str.splitlines / json.loads are the real ones; the model is handed their per-line outcome'],
         'assumptions': ['partial: gpsd itself; termination of _enable() is not claimed'],
+        'source_transfer': ['TransferGpsd'],
+        'source_tie': ['Gpsd'],
     },
 }
